@@ -389,7 +389,43 @@ def vec(cells):
     return ObjVec(cells)
 
 
+class ILoc(PyModel):
+    """DataFrame.iloc: purely positional access (the forms in use: [i], [:, j], [i, j], [rows, cols] with ints / slices / lists)"""
+    def __init__(self, frame):
+        self.f = frame
+
+    def _sel(self, k, n):
+        if isinstance(k, slice):
+            return list(range(n))[k], False
+        if isinstance(k, (list, tuple)):
+            return [int(i) for i in k], False
+        if isinstance(k, (SArr, ObjVec)):
+            return [int(S.rat(i).const()) if not isinstance(i, int) else i for i in (k.data if isinstance(k, SArr) else k.cells)], False
+        i = int(k)
+        if not -n <= i < n:
+            raise PyRaise("IndexError", None, "single positional indexer is out-of-bounds")
+        return [i % n], True
+
+    def __getitem__(self, key):
+        f = self.f
+        rk, ck = key if isinstance(key, tuple) else (key, slice(None))
+        ri, rs = self._sel(rk, len(f.rows))
+        ci, cs = self._sel(ck, len(f._cols.labels))
+        if rs and cs:
+            return f.rows[ri[0]][ci[0]]
+        if cs:
+            return Series([f.rows[i][ci[0]] for i in ri], f._cols.labels[ci[0]], Index([f.index.tuples[i] for i in ri], f.index.names, f.index.default and ri == list(range(len(f.rows))), f.index.multi))
+        if rs:
+            return Series([f.rows[ri[0]][j] for j in ci], None, Index([(f._cols.labels[j],) for j in ci], [None]))
+        return Frame([f._cols.labels[j] for j in ci], [[f.rows[i][j] for j in ci] for i in ri],
+                     Index([f.index.tuples[i] for i in ri], f.index.names, f.index.default and ri == list(range(len(f.rows))), f.index.multi), f._cols.name)
+
+
 class Frame(PyModel):
+    @property
+    def iloc(self):
+        return ILoc(self)
+
     def __init__(self, columns, rows, index=None, columns_name=None):
         self._cols = Columns(columns, columns_name)
         self.rows = [list(r) for r in rows]
